@@ -44,6 +44,35 @@ partial def jObj : Obj → Json
   | .pool id => Json.mkObj [("pool", Json.num id)]
   | .built t tgt => Json.mkObj (jTmplCall t ++ [("target", match tgt with | some o => jObj o | none => Json.null)])
 
+def handleChain (j : Json) : Except String Json := do
+  let tm ← (← getArr j "items").mapM (fun it => do
+    match it.getObjVal? "pool" with
+    | .ok p => return Item.obj (.pool (← p.getNat?))
+    | .error _ => do
+        -- the template is built by its curry calls, with a permissive signature
+        -- `(target?, *args, **kwargs)`: the chain stream is about `>>`, not about binding
+        let leaf ← getBool it "leaf"
+        let ctor ← getNat it "ctor"
+        let sigOf : Nat → Sig := fun _ =>
+          { pos := if leaf then [] else [⟨"target", false⟩], varPos := true, kwOnly := [], varKw := true }
+        let mut cur : Option Tmpl := none
+        let mut first := true
+        for c in (← getArr it "calls") do
+          let args ← (← getArr c "args").toList.mapM parseArg
+          let kwargs ← parseKw (← getArr c "kwargs")
+          cur := if first then Tmpl.new sigOf ctor leaf args kwargs
+                 else cur.bind (fun t => Tmpl.call sigOf t args kwargs)
+          first := false
+        match cur with
+        | some t => return Item.tmpl t
+        | none => throw "template rejected")
+  let e ← parseExpr tm (← j.getObjVal? "tree")
+  match eval e with
+  | some (.obj o, log) =>
+    return Json.mkObj [("obj", jObj o), ("log", Json.arr (log.map (fun t => Json.mkObj (jTmplCall t))).toArray)]
+  | some (_, log) => return Json.mkObj [("unbound", Json.num log.length)]
+  | none => return Json.mkObj [("error", "TypeError")]
+
 def handle (j : Json) : Except String Json := do
   let mode ← getStr j "mode"
   match mode with
@@ -70,34 +99,12 @@ def handle (j : Json) : Except String Json := do
       | _, _ => false
     return Json.mkObj [("reject_at", match rejectAt with | some i => Json.num i | none => Json.null),
                        ("complete", Json.bool complete)]
-  | "chain" =>
-    let tm ← (← getArr j "items").mapM (fun it => do
-      match it.getObjVal? "pool" with
-      | .ok p => return Item.obj (.pool (← p.getNat?))
-      | .error _ => do
-          -- the template is built by its curry calls, with a permissive signature
-          -- `(target?, *args, **kwargs)`: the chain stream is about `>>`, not about binding
-          let leaf ← getBool it "leaf"
-          let ctor ← getNat it "ctor"
-          let sigOf : Nat → Sig := fun _ =>
-            { pos := if leaf then [] else [⟨"target", false⟩], varPos := true, kwOnly := [], varKw := true }
-          let mut cur : Option Tmpl := none
-          let mut first := true
-          for c in (← getArr it "calls") do
-            let args ← (← getArr c "args").toList.mapM parseArg
-            let kwargs ← parseKw (← getArr c "kwargs")
-            cur := if first then Tmpl.new sigOf ctor leaf args kwargs
-                   else cur.bind (fun t => Tmpl.call sigOf t args kwargs)
-            first := false
-          match cur with
-          | some t => return Item.tmpl t
-          | none => throw "template rejected")
-    let e ← parseExpr tm (← j.getObjVal? "tree")
-    match eval e with
-    | some (.obj o, log) =>
-      return Json.mkObj [("obj", jObj o), ("log", Json.arr (log.map (fun t => Json.mkObj (jTmplCall t))).toArray)]
-    | some (_, log) => return Json.mkObj [("unbound", Json.num log.length)]
-    | none => return Json.mkObj [("error", "TypeError")]
+  | "chain" => handleChain j
+  | "chains" =>
+    -- several chains that share intermediate values in the implementation; templates and pending
+    -- binds are immutable values in the model, so sharing is re-evaluation
+    let rs ← (← getArr j "chains").toList.mapM handleChain
+    return Json.mkObj [("results", Json.arr rs.toArray)]
   | m => throw s!"bad mode {m}"
 
 end Cobald.Drive.C04
